@@ -164,11 +164,11 @@ fn run(a: &[&str]) -> String {
             Ok(d) => format!("ok {}", fdt(&d)),
             Err(_) => "err".to_string(),
         },
-        "dec_from_str" => match Decimal::from_str(&String::from_utf8(hex(a[1])).unwrap()) {
+        "dec_from_str" => match Decimal::from_str(&String::from_utf8(hex(a.get(1).copied().unwrap_or(""))).unwrap()) {
             Ok(d) => format!("ok {}", d.attos()),
             Err(_) => "err".to_string(),
         },
-        "pdec_from_str" => match PreciseDecimal::from_str(&String::from_utf8(hex(a[1])).unwrap()) {
+        "pdec_from_str" => match PreciseDecimal::from_str(&String::from_utf8(hex(a.get(1).copied().unwrap_or(""))).unwrap()) {
             Ok(d) => format!("ok {}", d.precise_subunits()),
             Err(_) => "err".to_string(),
         },
